@@ -278,7 +278,38 @@ Fixpoint run_acc (c : ctx) (acc : list event) (t : call) {struct t} : ctx * list
 Fixpoint run_list_acc (c : ctx) (acc : list event) (l : list call) : ctx * list event :=
   match l with [] => (c, acc) | t :: r => let (c', acc') := run_acc c acc t in run_list_acc c' acc' r end.
 
-Definition trace (md : N) (tops : list call) : list event := rev (snd (run_list_acc (init md) [] tops)).
+(* ---------- build_schemas: the top-level loop ---------- *)
+(* schema_states.pop(k, None): a Python dict has unique keys, so removing every entry for k is the same thing *)
+Definition pop_state (c : ctx) (k : str) : ctx :=
+  set_states c (filter (fun kv => negb (str_eqb k (fst kv))) (states c)).
+
+(* What happens between two moments at which no _parse_schema frame is active:
+   [Plain t]   : a top-level invocation (build_schemas' first visit of a schema, or an inline schema of an
+                 operation), or a registration done by the loader;
+   [Fresh k t] : build_schemas' re-parse of a schema that was only registered as a depth-limit placeholder:
+                 `context.unified_cycle_context.schema_states.pop(k, None)` followed by `_parse_schema(k, …)`. *)
+Inductive top := Plain (t : call) | Fresh (k : str) (t : call).
+
+Definition run_top (c : ctx) (x : top) : ctx :=
+  match x with Plain t => run c t | Fresh k t => run (pop_state c k) t end.
+Fixpoint run_tops (c : ctx) (l : list top) : ctx :=
+  match l with [] => c | x :: r => run_tops (run_top c x) r end.
+
+Definition run_top_acc (c : ctx) (acc : list event) (x : top) : ctx * list event :=
+  match x with Plain t => run_acc c acc t | Fresh k t => run_acc (pop_state c k) acc t end.
+Fixpoint run_tops_acc (c : ctx) (acc : list event) (l : list top) : ctx * list event :=
+  match l with [] => (c, acc) | x :: r => let (c', acc') := run_top_acc c acc x in run_tops_acc c' acc' r end.
+
+Definition trace (md : N) (tops : list top) : list event := rev (snd (run_tops_acc (init md) [] tops)).
+
+(* the state is popped for exactly the schema that is parsed next *)
+Definition fresh_ok (x : top) : bool :=
+  match x with
+  | Plain _ => true
+  | Fresh k (Call (Some n) _ _) => str_eqb k n
+  | Fresh _ _ => false
+  end.
+Definition top_call (x : top) : call := match x with Plain t => t | Fresh _ t => t end.
 
 (* ---------- the property's predicates ---------- *)
 Definition rest (c : ctx) : Prop := stack c = [] /\ depth c = 0.
@@ -315,12 +346,12 @@ Definition all_present (declared : list str) (c : ctx) : bool := forallb (regist
 (* ---------- executable guards of the partial theorem ---------- *)
 (* F08b: the RETURN_EXISTING fall-through was taken somewhere (the schema is parsed a second time, exited
    twice and left NOT_STARTED) *)
-Definition guard_F08b (md : N) (tops : list call) : bool :=
-  match g_fell (run_list (init md) tops) with [] => true | _ => false end.
+Definition guard_F08b (md : N) (tops : list top) : bool :=
+  match g_fell (run_tops (init md) tops) with [] => true | _ => false end.
 (* F08a: the true nesting of _parse_schema frames stays within the configured limit (+1 for the frame that
    receives the depth placeholder) *)
-Definition guard_F08a (md : N) (tops : list call) : bool :=
-  g_peak_nest (run_list (init md) tops) <=? md + 1.
+Definition guard_F08a (md : N) (tops : list top) : bool :=
+  g_peak_nest (run_tops (init md) tops) <=? md + 1.
 (* every entered name is a non-empty string (the tracker treats "" like None in half of its tests) *)
 Fixpoint names_truthy (t : call) : bool :=
   match t with
